@@ -392,8 +392,8 @@ def partitions(opname, NN, P):
     if opname == 'define_type': return [('defs', a, b) for a in (0, 1) for b in (0, 1)]
     return [None]
 
-def run_op(chk, fns, decls, opname, NN, EE, MM, ARGS, P, rec, part=None):
-    eng = make_engine(chk, fns, decls, ARGS, rec)
+def run_op(chk, fns, decls, opname, NN, EE, MM, ARGS, P, rec, part=None, hash_order=False):
+    eng = make_engine(chk, fns, decls, ARGS, rec); eng.hash_order_symbolic = hash_order
     M_ = Model('s_', NN, EE, MM, ARGS, P)
     st = engine.State()
     gcell = st.alloc(M_.value(decls))
